@@ -137,3 +137,14 @@ func (d *digester) walk(v reflect.Value, depth int) {
 		d.s(v.Kind().String())
 	}
 }
+
+// SortedKeys returns the keys of m in ascending order: the rewritten form of `for k, v := range m` at the sites
+// where map-iteration order would decide the order of scheduling operations (see tools/vinstr sortedRangeSites).
+func SortedKeys[K interface{ ~string | ~int | ~int64 }, V any](m map[K]V) []K {
+	ks := make([]K, 0, len(m))
+	for k := range m {
+		ks = append(ks, k)
+	}
+	sort.Slice(ks, func(i, j int) bool { return ks[i] < ks[j] })
+	return ks
+}
